@@ -37,19 +37,19 @@ PROPS = {
         level_note='Trusted: Lean kernel; Spec.SM4 transcription (validated on the Annex example and 40 OpenSSL ECB vectors each run); Impl<->Rust tie is sampling; immutability of the Rust object by &self + static scan.',
         assumptions=["immutability on the Rust side: methods take &self, static scan for interior mutability + history ops"]),
     'C07': dict(
-        gen=gens_sym.gen_c07, consts=['SM4.lean'], level='proof',
+        gen=gens_sym.gen_c07, consts=['SM4.lean'], level='proof', static_scan=['gm-sm4'],
         level_text='Proof: `ctr/ofb/cfb_enc/cfb_dec/cbc_enc/cbc_dec_refines` show each index-based mode loop of the model equals the SP 800-38A definition over the SM4 block function for EVERY key, IV and data length; `add_one` proves the 16-byte counter increment is +1 mod 2^128 (carry through all bytes, wrap-around); `*_round_trip` prove decrypt(encrypt(data)) = data for every length (CBC through PKCS#7 and C02\'s D.E = id); `cbc_dec_err`, `iv_len_err`, `key_len_err`, `mode_total` state the error logic outright and exclude panics; `stream_length`/`cbc_length` give the output sizes. Tied to the Rust code by a three-way differential over every length 0..70/200, carry IVs FF^j, every CBC-decrypt length and last byte, wrong IV/key sizes, and 404 OpenSSL mode vectors.',
         level_note='Trusted: Lean kernel; Spec.Modes transcription (validated on the OpenSSL CBC/CFB/OFB/CTR corpus each run); Impl<->Rust tie is sampling.',
         technique='Lean 4 refinement of the four mode loops to SP 800-38A definitions + round-trip theorems for every length; differential correspondence',
         assumptions=[]),
     'C08': dict(
-        gen=gens_sym.gen_c08, consts=['ZUC.lean'], level='proof',
+        gen=gens_sym.gen_c08, consts=['ZUC.lean'], level='proof', static_scan=['gm-zuc'],
         level_text='Proof: `split_independent` shows that for every 16-byte key/IV and EVERY finite sequence of request sizes (zeros included) the concatenated outputs of the model of gm-zuc equal the first sum(ns) words of the ZUC-128 specification written as arithmetic modulo 2^31-1; it rests on the proved invariant that all LFSR cells stay in 1..2^31-1 (so the code\'s `if s16 == 0` patches select the canonical representative) and on residue lemmas for the 32-bit rot31/add31 tricks. The model is tied to the Rust code by dumped S0/S1/D tables (re-proved equal to the specification) and a three-way differential over all compositions of small totals, zero-length requests, structured/random keys and long split streams.',
         level_note='Trusted: Lean kernel; Spec.ZUC transcription (validated on the three official ZUC-128 vectors every run); Impl<->Rust tie is sampling. Key/IV shorter than 16 bytes panic in the code and in the model (outside the statement; logged as out-of-statement).',
         technique='Lean 4 invariant (cells in 1..2^31-1) + refinement to arithmetic mod 2^31-1 + split-independence for every request history; differential correspondence',
         assumptions=[]),
     'C18': dict(
-        gen=gens_sym.gen_c18, consts=['ZUC.lean'], level='proof',
+        gen=gens_sym.gen_c18, consts=['ZUC.lean'], level='proof', static_scan=['gm-zuc'],
         level_text='Proof: `eea_refines` / `eia_refines` show that for every key, COUNT, BEARER < 32, DIRECTION < 2 and EVERY LENGTH : u32 the model of eea.rs / eia.rs (word-level XOR with final mask; `find_word` over two adjacent keystream words; `as u8` IV construction) equals the 3GPP bit-stream specification; `eea_involution`, `eia_depends_only`, `eea_depends_only` give the "twice restores the first LENGTH bits" and "depends on exactly the first LENGTH bits" clauses; the keystream itself is C08\'s theorem (hypothesis discharged, no assumption left). Tied to the Rust code by a three-way differential over every LENGTH 0..200/600, multiples of 32, all bearers x directions, trailing garbage.',
         level_note='Trusted: Lean kernel; Spec.EEA3 transcription (validated on the 3GPP test sets present in the repo); Impl<->Rust tie is sampling. Messages shorter than ceil(LENGTH/32) words panic in code and model (outside the statement; `eea_short_panics`).',
         technique='Lean 4 refinement of word-level EEA3/EIA3 to the bit-stream specification for every LENGTH; differential correspondence',
